@@ -462,7 +462,9 @@ def loc_rules(crate, base, query, res):
     if outer is None or rec is None:
         res.add(rule, 1, [Finding(rule, base, "location description not found", "")])
         return
-    v = View(outer)
+    import inline as _inl
+    # (`if location.is_origin() { return .. }` is the match on the variant once the accessor is expanded and its bool threaded)
+    v = View(_inl.expand_local_helpers(crate, outer, keep=(rec.path,)))
     info = None
     for bb in sorted(v.reach):
         i2 = v.switch_info(bb)
